@@ -5,6 +5,7 @@ package main
 import (
 	"fmt"
 	"math/big"
+	"sort"
 
 	"github.com/onflow/crypto"
 	"github.com/onflow/crypto/hash"
@@ -200,7 +201,8 @@ func genC01(c *Ctx) {
 			if c.thorough() && (ki > 1 || mi > 0) {
 				flips = 24
 			}
-			for class, cands := range c.candidateSigs(sig, hpoint, flips) {
+			for _, cc := range sortedCands(c.candidateSigs(sig, hpoint, flips)) {
+				class, cands := cc.class, cc.cands
 				for _, cand := range cands {
 					emitVerify("verify/"+class, key, hpoint, cand, verifyAns(key.pk, cand, msg, h))
 				}
@@ -262,4 +264,23 @@ func genC01(c *Ctx) {
 func pickIdentity(c *Ctx, i int) crypto.PublicKey {
 	ks := c.identityKeys()
 	return ks[i%len(ks)]
+}
+
+type candClass struct {
+	class string
+	cands [][]byte
+}
+
+// sortedCands fixes the enumeration order (Go map iteration is randomised; transcripts must be reproducible).
+func sortedCands(m map[string][][]byte) []candClass {
+	var keys []string
+	for k := range m {
+		keys = append(keys, k)
+	}
+	sort.Strings(keys)
+	var out []candClass
+	for _, k := range keys {
+		out = append(out, candClass{k, m[k]})
+	}
+	return out
 }
